@@ -6,6 +6,16 @@ import os
 HERE = os.path.dirname(os.path.dirname(os.path.abspath(__file__)))
 
 CHECKS = {
+    'C05': dict(
+        engine='crash', category='fault_enumeration', design='4/C05',
+        technique='SIGKILL injection at every SQL execute/commit boundary of a forked real server (exhaustive per RPC x prefix) + strace syscall-level kills (thorough) + restart and recovery oracle',
+        text=('68 (prefix, victim RPC) items, every before/after execute/commit boundary of the victim hit (~1400 crash points per '
+              'quick run, dry run counts boundaries): after restart on the same file the state must equal acknowledged-only or '
+              'acknowledged+victim (single-resource calls), each record one of the two versions (SuggestTrials / early stopping), all '
+              'records parse, ids unique, legal states, no orphan rows, and suggest+complete works for the same and a new worker. '
+              'Thorough adds kills at pwrite64/fdatasync/unlink inside SQLite via strace inject.'),
+        note=('Process death only (no power loss / torn sectors). Expected states are produced by the real servicer without a crash. '
+              'Child created with fork() from an initialised worker.')),
     'C20': dict(
         engine='value-gen', category='exploration', design='4/C20',
         technique='recording experimenter between every two wrapper layers + per-wrapper algebraic relation monitors against independent oracles',
